@@ -326,6 +326,11 @@ type caseDesc struct {
 	Format   string    `json:"format,omitempty"`
 	Consumer int       `json:"consumer_read_size,omitempty"` // pipe: 0 = ioutil.ReadAll, n = the ingester reads n bytes at a time
 	Long     *longSpec `json:"long_input,omitempty"`         // instead of input_hex
+	// interleave: a second transform (same format and encoding) alive at the same time
+	Input2Hex  string    `json:"input2_hex,omitempty"`
+	Long2      *longSpec `json:"long_input2,omitempty"`
+	SameSchema bool      `json:"same_schema,omitempty"`
+	Plan       []int     `json:"plan,omitempty"` // reads: 0 = from the first transform, 1 = from the second (created at its first use)
 }
 
 // longSpec is the compact, replayable description of a long input: a base (the ASCII filler
@@ -355,8 +360,12 @@ func (l *longSpec) build() []byte {
 	}
 	for _, p := range l.Patches {
 		x, _ := hex.DecodeString(p.Hex)
-		if p.At >= 0 && p.At+len(x) <= len(b) {
-			copy(b[p.At:], x)
+		at := p.At
+		if at < 0 { // counted from the end: -1 = the input's last byte(s)
+			at = len(b) + at - len(x) + 1
+		}
+		if at >= 0 && at+len(x) <= len(b) {
+			copy(b[at:], x)
 		}
 	}
 	pre, _ := hex.DecodeString(l.Prefix)
@@ -410,8 +419,11 @@ func (e *env) captureFor(enc string) *captureSchema {
 	return cs
 }
 
-func (e *env) schemaFor(fi int, enc string) omniparser.Schema {
-	k := e.fixtures[fi].Format + "/" + enc
+func (e *env) schemaFor(fi int, enc string) omniparser.Schema { return e.schemaInst(fi, enc, "") }
+
+// schemaInst: inst names a separate Schema instance built from the same source.
+func (e *env) schemaInst(fi int, enc, inst string) omniparser.Schema {
+	k := e.fixtures[fi].Format + "/" + enc + inst
 	if s, ok := e.schemas[k]; ok {
 		return s
 	}
@@ -718,6 +730,9 @@ func (e *env) longCases(r *vh.Rng) {
 	for _, enc := range encs {
 		for _, p := range offs {
 			for ii, ins := range inserts {
+				if (ii+n)%3 != 0 && p != 4095 && p != 4096 && p != 8191 && p != 8192 {
+					continue // every insert at the boundaries proper, a rotating third of them elsewhere
+				}
 				// the boundary under test is the last one the input reaches
 				e.curLong = &longSpec{Base: "filler", Len: p + len(ins) + 5 + ii, Patches: []patch{{p, hex.EncodeToString(ins)}}}
 				in := e.curLong.build()
@@ -777,6 +792,214 @@ func (e *env) longCases(r *vh.Rng) {
 		}
 	}
 	e.curLong = nil
+}
+
+// xmlPrologCases: XML documents that carry their own encoding label in the prolog, under every
+// parser_settings.encoding.  The schema's transcoding comes first and the XML decoder then applies
+// the label to the already converted bytes - in the reference run (input pre-converted, utf-8
+// declared) exactly as in the run under test, so the transcripts must still agree.
+func (e *env) xmlPrologCases(r *vh.Rng) {
+	const xmlFi = 6
+	prologs := []string{
+		`<?xml version="1.0" encoding="ISO-8859-1"?>`, `<?xml version="1.0" encoding="iso-8859-1"?>`,
+		`<?xml version="1.0" encoding="UTF-8"?>`, `<?xml version="1.0" encoding="utf-8"?>`,
+		`<?xml version="1.0" encoding="windows-1252"?>`, `<?xml version="1.0" encoding="Windows-1252"?>`,
+		`<?xml version='1.0' encoding='ISO-8859-1' standalone='yes'?>`, `<?xml version="1.0" encoding="latin1"?>`,
+		`<?xml version="1.0" encoding="US-ASCII"?>`, `<?xml version="1.0" encoding="ISO-8859-15"?>`,
+		`<?xml version="1.0" encoding="UTF-16"?>`, `<?xml version="1.0" encoding="no-such-charset"?>`,
+		`<?xml version="1.0"?>`, `<?xml version="1.0" standalone="no"?>`, ``,
+	}
+	vals := [][]byte{[]byte("caf\xe9"), {0xE9}, {0x80, 0x41}, []byte("caf\xc3\xa9"), {0x81, 0x9D}, []byte("plain"), {0xFF, 0xFE}, []byte("\xe4\xf6\xfc\xdf")}
+	for _, enc := range encs {
+		for pi, pro := range prologs {
+			for vi, val := range vals {
+				var b bytes.Buffer
+				if (pi+vi)%5 == 4 {
+					b.Write(bom)
+				}
+				b.WriteString(pro)
+				if vi%2 == 0 {
+					b.WriteString("\n")
+				}
+				b.WriteString("<r><n><a>k1</a><b>1</b><c>w</c></n><n><a>")
+				b.Write(val)
+				b.WriteString("</a><b>2</b><c>")
+				b.Write(vals[(vi+3)%len(vals)])
+				b.WriteString("</c></n></r>")
+				e.sum.Hist("transcript:xml-prolog-encoding-label")
+				e.runTranscript(xmlFi, enc, b.Bytes(), []string{"whole", "onebyte", "whole", "chunks:3,1,2"}[(pi+vi)%4])
+			}
+		}
+	}
+}
+
+// asciiPrefixCases: inputs whose first k*4096 (+0..8, and a few more) bytes are pure ASCII and
+// whose first byte >= 0x80 comes only then - up to the very last byte of the input.
+func (e *env) asciiPrefixCases(r *vh.Rng) {
+	var firsts []int
+	for _, k := range []int{1, 2, 3} {
+		for x := 0; x <= 8; x++ {
+			firsts = append(firsts, k*4096+x)
+		}
+		firsts = append(firsts, k*4096+17+r.Intn(180), k*4096+97+r.Intn(100))
+	}
+	highs := []string{"e9", "80", "e9e8", "81", "fc80", "ff"}
+	for _, enc := range encs {
+		for i, at := range firsts {
+			h := highs[(i+len(enc))%len(highs)]
+			// (i) the non-ASCII byte is the last byte of the input, (ii) ASCII follows
+			for j, tail := range []int{0, 1 + r.Intn(40), 4096 + r.Intn(50)} {
+				e.curLong = &longSpec{Base: "filler", Len: at + len(h)/2 + tail, Patches: []patch{{at, h}}}
+				e.runPipeX(enc, e.curLong.build(), []string{"whole", "whole", "chunks:4096,4096,1"}[j], []int{61, 0, 1000}[(i+j)%3], (i+j)%5 == 0)
+			}
+		}
+		for fi := range e.fixtures {
+			baseLen := len(longRows(fi, 3*4096+300))
+			for i, at := range firsts {
+				if at+3 >= baseLen || (fi != 0 && fi != 3 && i%3 != fi%3) {
+					continue // csv and fixed-length: every offset; the other formats: every third
+				}
+				e.curLong = &longSpec{Base: fmt.Sprintf("rows:%d", fi), Len: 3*4096 + 300, Patches: []patch{{at, highs[i%len(highs)]}}}
+				e.runTranscript(fi, enc, e.curLong.build(), "whole")
+			}
+			// the only non-ASCII byte is the last byte of a long input (no trailer after it)
+			e.curLong = &longSpec{Base: fmt.Sprintf("rows:%d", fi), Len: 4096 + 700, Patches: []patch{{-1, "e9"}}}
+			e.runTranscript(fi, enc, e.curLong.build(), "whole")
+		}
+	}
+	e.curLong = nil
+}
+
+// runInterleaved: two transforms of the same encoding alive at the same time must each give the
+// transcript they give alone.  plan[i] says which transform the i-th Read goes to; the second
+// transform is created (NewTransform) at its first use, i.e. while the first is mid-stream.
+func (e *env) runInterleaved(fi int, enc string, inA, inB []byte, specA, specB *longSpec, same bool, plan []int) {
+	d := caseDesc{Kind: "interleave", Enc: enc, Format: e.fixtures[fi].Format, SameSchema: same, Plan: plan, Mode: "whole"}
+	if specA != nil {
+		d.Long, d.Long2 = specA, specB
+	} else {
+		d.InputHex, d.Input2Hex = hex.EncodeToString(inA), hex.EncodeToString(inB)
+	}
+	sA := e.schemaInst(fi, enc, "")
+	sB := sA
+	if !same {
+		sB = e.schemaInst(fi, enc, "#2")
+	}
+	if sA == nil || sB == nil {
+		return
+	}
+	vh.Current(e.o, d)
+	maxReads := 60 + (len(inA)+len(inB))/8
+	soloA := transcript(sA, "whole", inA, maxReads)
+	soloB := transcript(sB, "whole", inB, maxReads)
+	var gotA, gotB []step
+	func() {
+		defer func() {
+			if r := recover(); r != nil {
+				gotA = append(gotA, step{Kind: "panic"})
+			}
+		}()
+		var ts [2]omniparser.Transform
+		done := [2]bool{}
+		ins := [2][]byte{inA, inB}
+		ss := [2]omniparser.Schema{sA, sB}
+		outs := [2]*[]step{&gotA, &gotB}
+		read := func(w int) {
+			if done[w] {
+				return
+			}
+			if ts[w] == nil {
+				t, err := ss[w].NewTransform("in", bytes.NewReader(ins[w]), &transformctx.Ctx{})
+				if err != nil {
+					*outs[w] = append(*outs[w], step{Kind: "newtransform-error"})
+					done[w] = true
+					return
+				}
+				ts[w] = t
+			}
+			b, err := ts[w].Read()
+			switch {
+			case err == nil:
+				*outs[w] = append(*outs[w], step{Kind: "rec", Bytes: string(b)})
+			case err == io.EOF:
+				*outs[w] = append(*outs[w], step{Kind: "eof"})
+				done[w] = true
+			case errs.IsErrTransformFailed(err):
+				*outs[w] = append(*outs[w], step{Kind: "failed"})
+			default:
+				*outs[w] = append(*outs[w], step{Kind: "fatal"})
+				done[w] = true
+			}
+		}
+		for _, w := range plan {
+			read(w & 1)
+		}
+		for i := 0; i < maxReads && !(done[0] && done[1]); i++ { // then both to the end, alternating
+			read(i & 1)
+		}
+	}()
+	e.sum.Hist("interleave:format=" + d.Format)
+	e.sum.Hist("interleave:enc=" + encLabel(enc))
+	if same {
+		e.sum.Hist("interleave:same-schema")
+	} else {
+		e.sum.Hist("interleave:two-schemas")
+	}
+	e.sum.Count(fmt.Sprintf("interleave|%s|%s|%s|%s|%v|%v", d.Format, enc, vh.KeyOf(inA), vh.KeyOf(inB), same, plan), hasHigh(inA) || hasHigh(inB))
+	if e.verbose {
+		fmt.Printf("interleave format=%s enc=%q same_schema=%v plan=%v\n  first : alone %d steps, interleaved %d steps\n  second: alone %d steps, interleaved %d steps\n", d.Format, enc, same, plan, len(soloA), len(gotA), len(soloB), len(gotB))
+	}
+	for w, pair := range [][2][]step{{soloA, gotA}, {soloB, gotB}} {
+		if ok, i := sameSteps(pair[0], pair[1]); !ok {
+			at := func(x []step) interface{} {
+				if i < len(x) {
+					return x[i]
+				}
+				return "(transcript ended)"
+			}
+			e.sum.Fail("a transform gives a different transcript when another transform of the same encoding is alive at the same time", d,
+				map[string]interface{}{"transform": []string{"first", "second"}[w], "first_difference_at": i, "alone": at(pair[0]), "interleaved": at(pair[1])})
+			return
+		}
+	}
+}
+
+func (e *env) interleaveCases(r *vh.Rng) {
+	tails := [][]byte{[]byte("Zo\xeb"), []byte("caf\xe9"), {0x80}, []byte("x\xfcy"), []byte("plain"), {0xE9, 0xE8, 0xE7}}
+	for fi := range e.fixtures {
+		for ei, enc := range encs {
+			for k := 0; k < 6; k++ {
+				inA := recordWith(fi, tails[(k+fi)%len(tails)])
+				inB := recordWith(fi, tails[(k+fi+ei+1)%len(tails)])
+				// the very end of the stream is a non-ASCII character where the format allows it
+				if fi == 0 || fi == 1 || fi == 3 || fi == 4 {
+					inA = append(bytes.TrimRight(inA, "\n"), tails[k%len(tails)]...)
+					inB = append(bytes.TrimRight(inB, "\n"), tails[(k+2)%len(tails)]...)
+				}
+				plan := []int{}
+				for i, n := 0, r.Between(0, 3); i < n; i++ {
+					plan = append(plan, 0)
+				}
+				for i, n := 0, r.Between(1, 6); i < n; i++ {
+					plan = append(plan, r.Pick(2))
+				}
+				e.runInterleaved(fi, enc, inA, inB, nil, nil, k%2 == 0, plan)
+			}
+			// long inputs: the first transform is mid-stream (several buffers in) when the second starts
+			for k := 0; k < 2; k++ {
+				sa := &longSpec{Base: fmt.Sprintf("rows:%d", fi), Len: 2*4096 + 500, Patches: []patch{{4090 + k, "e9e8"}, {-1, "eb"}}}
+				sb := &longSpec{Base: fmt.Sprintf("rows:%d", fi), Len: 4096 + 900, Patches: []patch{{300 + k, "fc"}, {-1, "e9"}}}
+				plan := []int{}
+				for i, n := 0, r.Between(1, 120); i < n; i++ {
+					plan = append(plan, 0)
+				}
+				for i, n := 0, r.Between(1, 40); i < n; i++ {
+					plan = append(plan, r.Pick(2))
+				}
+				e.runInterleaved(fi, enc, sa.build(), sb.build(), sa, sb, k == 0, plan)
+			}
+		}
+	}
 }
 
 // ---- tables -----------------------------------------------------------------------------------------
@@ -943,6 +1166,12 @@ func main() {
 
 	// 4b. long inputs: non-ASCII bytes at and across the 4096-byte buffer boundaries
 	e.longCases(r)
+	// 4c. a long pure-ASCII head, the first non-ASCII byte only after k*4096 bytes
+	e.asciiPrefixCases(r)
+	// 4d. XML documents with their own encoding label in the prolog
+	e.xmlPrologCases(r)
+	// 4e. two transforms of one encoding alive at the same time
+	e.interleaveCases(r)
 
 	// 5. random inputs: byte strings through the capture handler; generated and damaged fixture
 	// inputs through the formats
@@ -1009,6 +1238,17 @@ func (e *env) replay(path string) {
 		for fi, fx := range e.fixtures {
 			if fx.Format == d.Format {
 				e.runTranscript(fi, d.Enc, in, d.Mode)
+			}
+		}
+	case "interleave":
+		in2, _ := hex.DecodeString(d.Input2Hex)
+		if d.Long2 != nil {
+			in2 = d.Long2.build()
+		}
+		e.curLong = nil
+		for fi, fx := range e.fixtures {
+			if fx.Format == d.Format {
+				e.runInterleaved(fi, d.Enc, in, in2, d.Long, d.Long2, d.SameSchema, d.Plan)
 			}
 		}
 	}
